@@ -379,12 +379,12 @@ func min(a, b int) int {
 
 func init() {
 	lib.Register(&lib.Property{
-		ID:    "C18",
-		Level: "exploration",
-		Rule: "signed content S of {0,1,B-1,B,B+1,2B,2B+77,5B} bytes; written data D = S, every block-aligned prefix, non-aligned prefixes, S with one flipped bit in every non-empty subset of its blocks (<=5 blocks), one block deleted / duplicated / two adjacent swapped (a wrong block then equals the next signed block), S extended by {1,B-1,B,B+1}; write slicings {1 (small S), 7, 4096, B-1, B, B+1, 2B+5, all, random}; modes: error (driver stops after a failed Write and Closes; or ignores the error and keeps writing), wound (raw and through AggregateWounds). The inner pool records every byte it receives. Oracle: block-wise comparison against S by the harness. distinct = distinct (|S|, D kind, slicing, mode)",
+		ID:          "C18",
+		Level:       "exploration",
+		Rule:        "signed content S of {0,1,B-1,B,B+1,2B,2B+77,5B} bytes; written data D = S, every block-aligned prefix, non-aligned prefixes, S with one flipped bit in every non-empty subset of its blocks (<=5 blocks), one block deleted / duplicated / two adjacent swapped (a wrong block then equals the next signed block), S extended by {1,B-1,B,B+1}; write slicings {1 (small S), 7, 4096, B-1, B, B+1, 2B+5, all, random}; modes: error (driver stops after a failed Write and Closes; or ignores the error and keeps writing), wound (raw and through AggregateWounds). The inner pool records every byte it receives. Oracle: block-wise comparison against S by the harness. distinct = distinct (|S|, D kind, slicing, mode)",
 		Assumptions: []string{"blocks beyond the signed block count are only required to be wounds, their ranges are not judged", "with the aggregating filter a beyond-signed wound may be merged into a preceding wound"},
-		Cases: c18Cases,
-		Run:   c18Run,
-		Batch: 100,
+		Cases:       c18Cases,
+		Run:         c18Run,
+		Batch:       100,
 	})
 }
